@@ -230,7 +230,11 @@ func c18Observe(c c18Case, rs []c18Res, mixed map[string]bool) (*c18Obs, *kit.Fa
 // summarised) from rs[:split] alone, then the remaining results are added to
 // the SAME builder and the series built again; the second build is observed.
 func c18ObserveSplit(c c18Case, rs []c18Res, mixed map[string]bool, split int) (*c18Obs, *kit.Fail) {
-	b, err := benchseries.NewBuilder(c18Options(c.TableKeys))
+	opts := c18Options(c.TableKeys)
+	if c.filter != "" {
+		opts.Filter = c.filter
+	}
+	b, err := benchseries.NewBuilder(opts)
 	if err != nil {
 		return nil, kit.Failf("monitor-builder", "NewBuilder: %v", err)
 	}
@@ -458,6 +462,8 @@ type c18Case struct {
 	Text      bool
 	Conf      kit.F
 	N         int
+
+	filter string // builder filter for this observation ("" = the catch-all .unit:/.*/); set by the check, not generated
 }
 
 func (c c18Case) order(k int) []c18Res {
@@ -807,6 +813,58 @@ func c18CheckBuilder(c c18Case) *kit.Fail {
 			return kit.Failf("incremental-build-differs-"+c18DiffKind(a, b), "adding the first %d results, building the series, adding the other %d and building again differs from one build over all results at %s", split, len(c.Results)-split, d)
 		}
 		kit.Count("C18 two-instalment builds compared", 1)
+	}
+	// --- a unit filter keeps exactly the measurements of the units it names ----
+	// The builder's own filter option, naming one unit (or all but one), must
+	// give what the catch-all filter gives on results stripped beforehand of
+	// every other measurement (results left without any are not added at all).
+	if knownHashpair == "" {
+		unitSet := map[string]bool{}
+		for _, r := range c.Results {
+			for _, v := range r.Vals {
+				unitSet[v.U] = true
+			}
+		}
+		var units []string
+		for u := range unitSet {
+			units = append(units, u)
+		}
+		sort.Strings(units)
+		if len(units) >= 2 {
+			u := units[int(c.OrderSeed%uint64(len(units)))]
+			neg := (c.OrderSeed>>8)&1 == 1
+			fc := c
+			fc.filter = ".unit:" + strconv.Quote(u)
+			if neg {
+				fc.filter = "-" + fc.filter
+			}
+			var kept []c18Res
+			for _, r := range c.order(0) {
+				r2 := r
+				r2.Vals = nil
+				for _, v := range r.Vals {
+					if (v.U == u) != neg {
+						r2.Vals = append(r2.Vals, v)
+					}
+				}
+				if len(r2.Vals) > 0 {
+					kept = append(kept, r2)
+				}
+			}
+			fa, f := c18Observe(fc, c.order(0), mixed)
+			if f != nil {
+				return f
+			}
+			fb, f := c18Observe(c, kept, mixed)
+			if f != nil {
+				return f
+			}
+			a, b := c18Unmasked(fa), c18Unmasked(fb)
+			if d := c18Diff(a, b); d != "" {
+				return kit.Failf("unit-filter-differs-"+c18DiffKind(a, b), "builder filter %s over all results differs from the catch-all filter over the results stripped of the other measurements at %s", fc.filter, d)
+			}
+			kit.Count("C18 unit-filtered builds compared with pre-stripped results", 1)
+		}
 	}
 	if knownHashpair != "" {
 		return kit.Failf("hashpair-missing-baseline", "%s", knownHashpair)
